@@ -397,6 +397,24 @@ Theorem C12_gen_bounds_kernel_eq : forall (v : volume) a b nd,
   = Some (map (map xpair) (bounds_map tf thr disps v)).
 Proof. intros v a b nd. exact (gen_bounds_map_eq v a b [] nd). Qed.
 
+(* normalize_with_percentile (plain numpy on the whole map, translated the same way; np.percentile is any function
+   that interpolates linearly between the order statistics, percentile_ok, satisfiable: C12_gen_percentile_contract_satisfiable):
+   generated = normalize_percentile of the model WITH the zero-range guard, for every non-empty ambiguity map *)
+Theorem C12_gen_normalize_eq : forall pctl p (amb : list (list Q)), percentile_ok pctl -> concat amb <> [] ->
+  exists r, G.normalize_with_percentile pctl (XFin p) (map (map XFin) amb) = Some r
+            /\ Forall2 (Forall2 xeq) r (map (map of_oq) (normalize_percentile true p amb)).
+Proof. exact gen_normalize_eq. Qed.
+
+(* C12_ambiguity_normalised_in_01 on the generated normalisation: finite values of [0, 1] for EVERY non-empty map
+   (the D12 witness included: a constant map is sent to 0) *)
+Theorem C12_gen_normalised_in_01 : forall pctl p (amb : list (list Q)), percentile_ok pctl -> concat amb <> [] ->
+  exists r, G.normalize_with_percentile pctl (XFin p) (map (map XFin) amb) = Some r /\
+    forall row y, In row r -> In y row -> exists q, y = XFin q /\ (0 <= q <= 1)%Q.
+Proof. exact gen_normalize_in01. Qed.
+
+Theorem C12_gen_percentile_contract_satisfiable : percentile_ok pctl_lin.
+Proof. exact pctl_lin_ok. Qed.
+
 (* ---- the headline theorems on the generated kernels *)
 
 (* C12_ambiguity_def: the generated pixel body returns the count formula *)
@@ -452,6 +470,18 @@ Proof.
   repeat split.
 Qed.
 
+(* the generated normalisation on the D12 witness (constant map: 0 everywhere, not NaN) and on a 1 x 3 map *)
+Example C12_example_gen_normalize :
+  match G.normalize_with_percentile pctl_lin (XFin 1) [[XFin 6]] with Some [[XFin a]] => Qred a = 0%Q | _ => False end
+  /\ match G.normalize_with_percentile pctl_lin (XFin 50) [[XFin 2; XFin 6; XFin 4]] with
+     | Some [[XFin a; XFin b; XFin c]] => True | _ => False end
+  /\ match G.normalize_with_percentile pctl_lin (XFin 0) [[XFin 2; XFin 6; XFin 4]] with
+     | Some [[XFin a; XFin b; XFin c]] => (Qred a, Qred b, Qred c) = (0%Q, 1%Q, (1 # 2)%Q) | _ => False end.
+Proof.
+  vm_compute.
+  repeat split.
+Qed.
+
 Print Assumptions C12_bands_append_only.
 Print Assumptions C12_suffix_rule.
 Print Assumptions C12_confidence_steps_transparent.
@@ -492,3 +522,6 @@ Print Assumptions C12_gen_risk_order.
 Print Assumptions C12_gen_risk_finite.
 Print Assumptions C12_gen_bounds_bracket_wta.
 Print Assumptions C12_gen_argsort_contract_satisfiable.
+Print Assumptions C12_gen_normalize_eq.
+Print Assumptions C12_gen_normalised_in_01.
+Print Assumptions C12_gen_percentile_contract_satisfiable.
